@@ -10,7 +10,7 @@ PROP = {
             "alternating tiny/huge, clustered) x 12 ordinate styles (1e-20..1e20 mixed sign, plateaus, spike, monotone, rounded line/parabola, sine, constant, "
             "staircase), optional x_dim/f_dim, both constructors; queries at every knot, both nextafter neighbours, interior points incl. 1e-9 from the ends, "
             "the 1% extrapolation zone at both ends; exactly representable lines and parabolas; rectangular grids 3..14 per axis and exact bilinear functions",
-    "floors": {"quick": {"cases": 8000, "distinct_nontrivial": 3000, "ticks": {"Locate.bisection": 100000},
+    "floors": {"quick": {"cases": 30000, "distinct_nontrivial": 25000, "ticks": {"Locate.bisection": 100000},
                          "clauses": {"knot-value-reproduced": 20000, "value-vs-steffen-reference": 100000, "no-overshoot-between-knots": 100000,
                                      "monotone-between-knots": 100000, "slope-continuous-across-knot": 10000, "straight-line-reproduced": 5000,
                                      "parabola-reproduced-where-limiter-inactive": 3000, "derivative-1-is-derivative-of-returned-curve": 5000,
